@@ -60,6 +60,7 @@ pub fn run() {
             drop(satt_tx);
         } else if survivor {
             sent_s = json!(tx.send(&tagged(9, 0, 48), vec![OsIpcChannel::Sender(satt_tx)], vec![]).is_ok());
+            idle_tx = Some(tx); // stays alive during the observation, released before the descriptors are counted
         } else {
             drop(tx);
             drop(satt_tx);
